@@ -1045,7 +1045,7 @@ def generate(rng, prop, tier):
         allow = set(rng.choice(ALLOW_SETS))
         syms = score.fill_bar(rng, meter[0], meter[1], rng.choice([0, 1, 2, 3]), allow, max_entries=12)
         if not full and len(syms) > 1:
-            syms = syms[: rng.randrange(1, len(syms) + 1)]
+            syms = syms[: rng.randrange(0 if rng.random() < 0.1 else 1, len(syms) + 1)]  # now and then an empty bar
         entries = _gen_entries(rng, syms, None if rng.random() < 0.5 else rng.randrange(16), cfg["rest_p"], rng.random() < 0.15, cfg["bpm_p"])
         return _emit_bar(ops, key, meter, entries)
 
